@@ -97,6 +97,13 @@ func build(p part) (string, error) {
 		cmd.Env = append(goEnv(), extra...)
 		return cmd.CombinedOutput()
 	}
+	if g := os.Getenv("VERIF_GO"); g != "" { // experiments: build the workloads with another installed toolchain
+		out, err := try(g, "GOTOOLCHAIN=local")
+		if err != nil {
+			return "", fmt.Errorf("build with %s failed: %v\n%s", g, err, out)
+		}
+		return bin, nil
+	}
 	out, err := try("go")
 	if err != nil {
 		out2, err2 := try("go1.26", "GOTOOLCHAIN=local")
@@ -236,11 +243,55 @@ func lastCase(journal string) (idx int, c json.RawMessage) {
 var panicLine = regexp.MustCompile(`(?m)^(panic: .*|fatal error: .*)$`)
 var repoFrame = regexp.MustCompile(`github\.com/bartventer/httpcache[^\s]*\.[A-Za-z_(][^\s]*`)
 
+// crashingStack returns the first stack block after the panic / fatal error
+// line: the stack of the goroutine (or of the runtime) that crashed. With
+// GOTRACEBACK=all the dump continues with every other goroutine, which says
+// nothing about who crashed.
+func crashingStack(stderr string) string {
+	m := panicLine.FindString(stderr)
+	if m == "" {
+		return ""
+	}
+	rest := stderr[strings.Index(stderr, m)+len(m):]
+	rest = strings.TrimLeft(rest, "\n")
+	// skip "[recovered]" continuation lines up to the first block
+	if i := strings.Index(rest, "\n\n"); i >= 0 {
+		first := rest[:i]
+		if !strings.Contains(first, "goroutine ") && !strings.Contains(first, "runtime stack:") {
+			rest2 := strings.TrimLeft(rest[i:], "\n")
+			if j := strings.Index(rest2, "\n\n"); j >= 0 {
+				return rest2[:j]
+			}
+			return rest2
+		}
+		return first
+	}
+	return rest
+}
+
+// toolchainCrash: a fatal error inside the Go runtime itself (seen with
+// go1.25.0: "fatal error: bad g->status in ready" from the timer code inside
+// synctest bubbles) - no repository frame on the crashing stack.
+func toolchainCrash(stderr string) bool {
+	m := panicLine.FindString(stderr)
+	if m == "" || !strings.HasPrefix(m, "fatal error:") {
+		return false
+	}
+	if strings.Contains(m, "concurrent map") || strings.Contains(m, "all goroutines are asleep") {
+		return false
+	}
+	return !strings.Contains(crashingStack(stderr), "github.com/bartventer/httpcache")
+}
+
 // deathSignature derives a structural signature from a crash dump.
 func deathSignature(stderr string) (string, string) {
 	m := panicLine.FindString(stderr)
 	if m == "" {
 		return "", ""
+	}
+	cs := crashingStack(stderr)
+	if !strings.Contains(cs, "github.com/bartventer/httpcache") {
+		return "", m
 	}
 	at := strings.Index(stderr, m)
 	frame := repoFrame.FindString(stderr[at:])
@@ -469,6 +520,17 @@ func cmdRun(id, tier string, replayIdx int, replayPart string, verbose bool) int
 	}
 	wg.Wait()
 
+	// a child killed by a crash of the Go runtime itself is re-run (twice at most)
+	retried := 0
+	for attempt := 0; attempt < 2; attempt++ {
+		for i, j := range jobs {
+			if outs[i].res == nil && !outs[i].timedOut && toolchainCrash(outs[i].stderr) {
+				retried++
+				outs[i] = runChild(pr, j.p, bins[j.p.Name], tier, seed, j.batch, j.n, replayIdx, verbose, scratch)
+			}
+		}
+	}
+
 	// merge
 	known := loadKnown()
 	merged := map[string]any{}
@@ -503,7 +565,7 @@ func cmdRun(id, tier string, replayIdx int, replayPart string, verbose bool) int
 				} else {
 					harnessErr = true
 				}
-			case sig != "" && co.part.DeathIsViolation && strings.Contains(co.stderr, "github.com/bartventer/httpcache"):
+			case sig != "" && co.part.DeathIsViolation:
 				violations = append(violations, run.Violation{Property: pr.ID, Clause: "process-death", Signature: "process-death/" + sig,
 					Message: "process died while executing the journalled case: " + line, Part: co.part.Name, Idx: idx, Case: c, Observed: tail})
 			default:
@@ -656,6 +718,7 @@ func cmdRun(id, tier string, replayIdx int, replayPart string, verbose bool) int
 		"cross_observations":  cross,
 		"known_findings_hit":  nKnown,
 		"children":            len(outs),
+		"children_rerun_after_go_runtime_crash": retried,
 	}
 	if exhaustive && len(outs) > 0 && tier == "thorough" {
 		cov["exhaustive"] = true
